@@ -208,9 +208,16 @@ func NewAgent(ctx context.Context, config *AgentConfig) (_ *Agent, err error) {
 		return nil, err
 	}
 
+	// the agent keeps its own copy of the return-directly set: the topology below is built from it once, so what the
+	// tools node consults at run time must not follow later changes of the caller's config
+	toolReturnDirectly := make(map[string]struct{}, len(config.ToolReturnDirectly))
+	for name := range config.ToolReturnDirectly {
+		toolReturnDirectly[name] = struct{}{}
+	}
+
 	toolsNodePreHandle := func(ctx context.Context, input *schema.Message, state *state) (*schema.Message, error) {
 		state.Messages = append(state.Messages, input)
-		state.ReturnDirectlyToolCallID = getReturnDirectlyToolCallID(input, config.ToolReturnDirectly)
+		state.ReturnDirectlyToolCallID = getReturnDirectlyToolCallID(input, toolReturnDirectly)
 		return input, nil
 	}
 	if err = graph.AddToolsNode(nodeKeyTools, toolsNode, compose.WithStatePreHandler(toolsNodePreHandle), compose.WithNodeName(ToolsNodeName)); err != nil {
@@ -230,7 +237,7 @@ func NewAgent(ctx context.Context, config *AgentConfig) (_ *Agent, err error) {
 		return nil, err
 	}
 
-	if len(config.ToolReturnDirectly) > 0 {
+	if len(toolReturnDirectly) > 0 {
 		if err = buildReturnDirectly(graph); err != nil {
 			return nil, err
 		}
